@@ -84,6 +84,12 @@ def execute(case):
                 ctx = current_context()
                 vis = [i for i, T in enumerate(RT) if get_resources(T)]
                 log(ev="bg.begin", k=k, vis=vis, parentok=(ctx.parent is not None and ctx.parent.parent is st["owner"]))
+                if (case.get("seed", 0) + k) % 2:
+                    # the task's own context gets an asynchronous teardown callback that reaches a checkpoint (cancelled there when the
+                    # task is ended through its handle)
+                    async def own_td():
+                        await sleep(0)
+                    ctx.add_teardown_callback(own_td)
             if t["via"] == "ts":
                 async def func(*, task_status):
                     begin()
@@ -141,8 +147,10 @@ def execute(case):
             try:
                 async with Context() as ctx:
                     st["owner"] = ctx
-                    ctx.add_resource(RT[0]())
-                    log(ev="reg", id=0)
+                    if case.get("seed", 0) % 3 != 2:
+                        ctx.add_resource(RT[0]())
+                        log(ev="reg", id=0)
+                    # else: the owning context holds nothing when the factory is started (the snapshot is empty: tasks see no resource at all)
                     if case.get("seed", 0) % 2:
                         # the factory is started by a component's start(), i.e. through the ComponentContext
                         class FactoryComponent(Component):
